@@ -103,6 +103,9 @@ class DB:
         if self.path not in self.stores.data:
             if not create_if_missing:
                 raise Error(f'Invalid argument: {name}: does not exist (create_if_missing is false)')
+            hook = self.stores.hook
+            if hook:
+                hook('create', self.path, [])          # creating a database is a durable effect
             self.stores.data[self.path] = SortedDict()
             os.makedirs(self.path, exist_ok=True)     # Storage.is_new looks at the file system
         self.d = self.stores.data[self.path]
